@@ -1,0 +1,101 @@
+//! Verification hooks. Compiled only with `--cfg actix_net_verif`; with the flag off the crate is
+//! unchanged. Shared hook state: yield-point callback, dispatch log, spin guard, accept-error
+//! injection; re-exports of the stepped accept driver and the worker ends.
+
+#![allow(missing_docs, missing_debug_implementations)]
+
+use std::{
+    cell::{Cell, RefCell},
+    io,
+    os::unix::io::RawFd,
+    sync::Mutex,
+};
+
+pub use crate::socket::MioStream;
+
+/// Points inside the accept loop at which a generated schedule may run other "threads".
+#[derive(Debug, Clone, Copy, PartialEq, Eq)]
+pub enum YieldPoint {
+    /// `send_connection`: the connection has been sent to worker `idx`, `inc_counter` has not run yet
+    SentNotCounted { idx: usize },
+}
+
+/// One entry of the dispatch log: connection accepted on listener `token` was sent to `worker`
+/// (`None`: dropped because no worker handle was left).
+#[derive(Debug, Clone, Copy, PartialEq, Eq)]
+pub struct Dispatch {
+    pub token: usize,
+    pub worker: Option<usize>,
+}
+
+thread_local! {
+    static YIELD_CB: RefCell<Option<Box<dyn FnMut(YieldPoint)>>> = const { RefCell::new(None) };
+    static DISPATCH_LOG: RefCell<Vec<Dispatch>> = const { RefCell::new(Vec::new()) };
+    static SPIN: Cell<u32> = const { Cell::new(0) };
+}
+
+/// iterations of the accept loops allowed per step before the spin guard panics
+pub const SPIN_LIMIT: u32 = 10_000;
+
+pub fn set_yield_callback(cb: Option<Box<dyn FnMut(YieldPoint)>>) {
+    YIELD_CB.with(|c| *c.borrow_mut() = cb);
+}
+
+pub(crate) fn yield_point(p: YieldPoint) {
+    let cb = YIELD_CB.with(|c| c.borrow_mut().take());
+    if let Some(mut cb) = cb {
+        cb(p);
+        YIELD_CB.with(|c| {
+            let mut slot = c.borrow_mut();
+            if slot.is_none() {
+                *slot = Some(cb);
+            }
+        });
+    }
+}
+
+pub(crate) fn log_dispatch(token: usize, worker: Option<usize>) {
+    DISPATCH_LOG.with(|l| l.borrow_mut().push(Dispatch { token, worker }));
+}
+
+pub fn take_dispatch_log() -> Vec<Dispatch> {
+    DISPATCH_LOG.with(|l| std::mem::take(&mut *l.borrow_mut()))
+}
+
+pub(crate) fn spin_tick() {
+    SPIN.with(|s| {
+        s.set(s.get() + 1);
+        if s.get() > SPIN_LIMIT {
+            s.set(0);
+            panic!("verif spin guard: accept loop iterated more than {} times in one step", SPIN_LIMIT);
+        }
+    });
+}
+
+pub fn reset_spin() {
+    SPIN.with(|s| s.set(0));
+}
+
+/// one-shot injected accept errors, keyed by the listener's raw fd (process global so that a real
+/// accept thread can be targeted too)
+static INJECTED: Mutex<Vec<(RawFd, Option<i32>, io::ErrorKind)>> = Mutex::new(Vec::new());
+
+/// Make the next `accept()` on the listener with this fd fail once; the pending connection stays
+/// in the backlog. `raw_os`: e.g. `Some(libc::EMFILE)`; otherwise an error of `kind` is built.
+pub fn inject_accept_error(fd: RawFd, raw_os: Option<i32>, kind: io::ErrorKind) {
+    INJECTED.lock().unwrap().push((fd, raw_os, kind));
+}
+
+pub fn clear_injected(fd: RawFd) {
+    INJECTED.lock().unwrap().retain(|e| e.0 != fd);
+}
+
+pub(crate) fn take_injected(fd: RawFd) -> Option<io::Error> {
+    let mut q = INJECTED.lock().unwrap();
+    let pos = q.iter().position(|e| e.0 == fd)?;
+    let (_, raw, kind) = q.remove(pos);
+    Some(match raw {
+        Some(code) => io::Error::from_raw_os_error(code),
+        None => io::Error::new(kind, "injected accept error"),
+    })
+}
